@@ -265,14 +265,14 @@ Section Pass.
   Variable hash : N -> option N -> N.
   (** An API fault injected at the n-th request (0-based, reads included) of a pass; true = response lost. *)
   Variable fault : option (nat * bool).
-  (** The ObjectSlices of the deployment's namespace (never written by this controller), and the variant of the
-      archive reconciler: false = getObjects as it is (inline objects only), true = the repaired getter, which
-      reads the referenced ObjectSlices (one Get each; a missing slice is an error). *)
+  (** The ObjectSlices of the deployment's namespace (never written by this controller), and the shape of the
+      archive reconciler's ObjectSet getter: true = the code as it is (since f07b836: reads the referenced ObjectSlices,
+      one Get each; a missing slice is an error), false = the code before that commit (inline objects only). *)
   Variable slices : N -> option (list pobj).
   Variable sliceaware : bool.
-  (** The variant of the "slow cache" test of the new-revision reconciler: false = as it is (the name holder's
-      revision must be at least the latest listed one), true = repaired (a holder that has not reported its
-      revision yet is the ObjectSet this deployment has just created). *)
+  (** The shape of the "slow cache" test of the new-revision reconciler: true = the code as it is (since 0384cff: a
+      holder that has not reported its revision yet is the ObjectSet this deployment has just created), false = the
+      code before that commit (the holder's revision must be at least the latest listed one). *)
   Variable rev0ok : bool.
 
   Inductive fk := FGo | FErr | FLost.
@@ -404,12 +404,12 @@ Section Pass.
        ds_hash := Some (d_hash d); ds_pbp := false; ds_sel := true; ds_ctrl := oi_uid (d_id d); ds_ctrlset := false |}.
 
   (** The "slow cache" test (:66-77) *)
-  Definition adoptable (d : depl) (prev : list dset) (c : dset) : bool :=
+  Definition adoptable_sh (d : depl) (prev : list dset) (c : dset) : bool :=
     negb (is_archived c) && ((rev0ok && Z.eqb (srev c) 0) || (latest_revision prev <=? srev c)%Z) &&
     negb (ds_ctrl c =? 0) && (ds_ctrl c =? oi_uid (d_id d)) &&
     phases_eqb (d_phases d) (os_phases (ds_set c)).
 
-  Definition new_revision (st : pst) (d : depl) (cur : option dset) (prev : list dset) : pst * depl :=
+  Definition new_revision_sh (st : pst) (d : depl) (cur : option dset) (prev : list dset) : pst * depl :=
     match cur with
     | Some _ => (st, d)                                                         (* :30-33 *)
     | None =>
@@ -420,7 +420,7 @@ Section Pass.
             let st2 := read_req st1 in                                          (* :56-62 Get of the conflicting ObjectSet *)
             match find_dset (dw_sets (p_w st2)) (d_hash d) with
             | None => (st2, d)                                                  (* cannot happen within a pass *)
-            | Some c => if adoptable d prev c then (st2, d)                     (* :66-77 "Slow cache, no collision" *)
+            | Some c => if adoptable_sh d prev c then (st2, d)                     (* :66-77 "Slow cache, no collision" *)
                         else (st2, set_cc d (bump_cc (d_cc d)))                 (* :79-88 *)
             end
         | _ => (st1, d)
@@ -451,12 +451,12 @@ Section Pass.
   (** The repaired getObjects: one Get per referenced ObjectSlice. *)
   Definition load_slices_req (st : pst) (s : dset) : pst :=
     fold_left (fun st n => get_req st (match slices n with Some _ => true | None => false end)) (slice_refs s) st.
-  Definition seen_objects (s : dset) : list okey := if sliceaware then full_objects slices s else set_objects s.
+  Definition seen_objects_sh (s : dset) : list okey := if sliceaware then full_objects slices s else set_objects s.
 
   (** intermediateRevisionCanBeArchived (:153-190) *)
-  Definition intermediate (st : pst) (mem : list dset) (prev cur : dset) : pst * list dset * bool :=
+  Definition intermediate_sh (st : pst) (mem : list dset) (prev cur : dset) : pst * list dset * bool :=
     let st0 := if sliceaware then load_slices_req st cur else st in      (* :156 getObjects *)
-    let latest_objs := seen_objects cur in
+    let latest_objs := seen_objects_sh cur in
     match active_objects prev with
     | None => (st0, mem, false)                                                      (* :162-166 *)
     | Some act =>
@@ -467,7 +467,7 @@ Section Pass.
 
   (** objectSetsToBeArchived (:72-124): the loop runs from the newest revision downwards; [rl] is the list of
       ObjectSets in descending order. *)
-  Fixpoint to_archive (st : pst) (mem : list dset) (rl : list dset) : pst * list dset * list N :=
+  Fixpoint to_archive_sh (st : pst) (mem : list dset) (rl : list dset) : pst * list dset * list N :=
     match rl with
     | [] => (st, mem, [])
     | cur :: rest =>
@@ -476,10 +476,10 @@ Section Pass.
           match rest with
           | [] => (st, mem, [])
           | prev :: _ =>
-              if is_archived prev then to_archive st mem rest else                   (* :97-100 *)
-              if (srev cur <=? srev prev)%Z then to_archive st mem rest else         (* :102-107 *)
-              let '(st1, mem1, b) := intermediate st mem prev cur in                 (* :110-120 *)
-              let '(st2, mem2, l) := to_archive st1 mem1 rest in
+              if is_archived prev then to_archive_sh st mem rest else                   (* :97-100 *)
+              if (srev cur <=? srev prev)%Z then to_archive_sh st mem rest else         (* :102-107 *)
+              let '(st1, mem1, b) := intermediate_sh st mem prev cur in                 (* :110-120 *)
+              let '(st2, mem2, l) := to_archive_sh st1 mem1 rest in
               (st2, mem2, if b then sname prev :: l else l)
           end
     end.
@@ -506,9 +506,9 @@ Section Pass.
   Definition lookup_all (mem : list dset) (names : list N) : list dset :=
     flat_map (fun n => match find_dset mem n with Some s => [s] | None => [] end) names.
 
-  Definition archive (st : pst) (d : depl) (has_cur : bool) (mem : list dset) : pst * list dset :=
+  Definition archive_sh (st : pst) (d : depl) (has_cur : bool) (mem : list dset) : pst * list dset :=
     if negb has_cur then (st, mem) else                                              (* :26-28 *)
-    let '(st1, mem1, names) := to_archive st mem (rev mem) in                        (* :30-33 *)
+    let '(st1, mem1, names) := to_archive_sh st mem (rev mem) in                        (* :30-33 *)
     let cands := isort rev_lt (lookup_all mem1 names) in                             (* :55 *)
     mark st1 mem1 d (map sname (removelast mem)) cands.
 
@@ -527,7 +527,7 @@ Section Pass.
                             | _ => acc end) evs None.
 
   (** GenericObjectDeploymentController.Reconcile (objectdeployment_controller.go:112-138) *)
-  Definition dep_pass (stale : bool) (w : dworld) : dworld * list dev * dpres :=
+  Definition dep_pass_sh (stale : bool) (w : dworld) : dworld * list dev * dpres :=
     let st0 := {| p_w := w; p_evs := []; p_n := O; p_dead := false |} in
     let st1 := read_req st0 in                                                        (* :119 Get of the deployment *)
     let d1 := set_hash (dw_dep w) (hash (d_digest (dw_dep w)) (d_cc (dw_dep w))) in   (* hash_reconciler.go:19-20 *)
@@ -541,8 +541,8 @@ Section Pass.
         let '(cur, prev) := split_current has_cur mem in (stp, set_status d1 cur prev)
       else
         let '(cur, prev) := split_current has_cur mem in
-        let '(sta, d3) := new_revision stp d1 cur prev in
-        let '(stb, mem') := archive sta d3 has_cur mem in
+        let '(sta, d3) := new_revision_sh stp d1 cur prev in
+        let '(stb, mem') := archive_sh sta d3 has_cur mem in
         let '(cur', prev') := split_current has_cur mem' in
         (stb, set_status d3 cur' prev') in
     let st4 := status_req st3 d2 in                                                   (* objectdeployment_controller.go:137 *)
@@ -621,14 +621,14 @@ Section Run.
         end
     end.
 
-  Definition do_step (w : dworld) (s : step) : dworld :=
+  Definition do_step_sh (w : dworld) (s : step) : dworld :=
     match s with
     | SEdit dg phs =>
         edit_dep w (fun d => set_template d dg phs)
                  (negb (dg =? d_digest (dw_dep w)) || negb (phases_eqb phs (d_phases (dw_dep w))))
     | SPause b => edit_dep w (fun d => set_paused d b) (negb (Bool.eqb b (d_paused (dw_dep w))))
     | SLimit l => edit_dep w (fun d => set_limit d l) (negb (option_eqb Z.eqb l (d_limit (dw_dep w))))
-    | SDep stale fault => let '(w', _, _) := dep_pass hash fault slices sliceaware rev0ok stale w in w'
+    | SDep stale fault => let '(w', _, _) := dep_pass_sh hash fault slices sliceaware rev0ok stale w in w'
     | SSet force n =>
         let '(sw', _, _) := objectset_pass force (to_sworld w) (set_kind w) (oi_ns (d_id (dw_dep w))) n in of_sworld w sw'
     | SRev n => rev_step w n
@@ -657,5 +657,20 @@ Section Run.
         end
     end.
 
-  Definition run (w : dworld) (h : list step) : dworld := fold_left do_step h w.
+  Definition run_sh (w : dworld) (h : list step) : dworld := fold_left do_step_sh h w.
 End Run.
+
+(** ** The code as it is, and the shapes before the fixes 0384cff (slow-cache test) and f07b836 (ObjectSlices in the
+    archive decision). The [_sh] definitions above are parametric in the shape; the history theorems hold for both. *)
+Definition adoptable := adoptable_sh true.
+Definition adoptable_v0 := adoptable_sh false.
+Definition seen_objects (slices : N -> option (list pobj)) := seen_objects_sh slices true.
+Definition seen_objects_v0 (slices : N -> option (list pobj)) := seen_objects_sh slices false.
+Definition to_archive fault slices := to_archive_sh fault slices true.
+Definition to_archive_v0 fault slices := to_archive_sh fault slices false.
+Definition dep_pass hash fault slices := dep_pass_sh hash fault slices true true.
+Definition dep_pass_v0 hash fault slices := dep_pass_sh hash fault slices false false.
+Definition do_step hash slices := do_step_sh hash slices true true.
+Definition do_step_v0 hash slices := do_step_sh hash slices false false.
+Definition run hash slices := run_sh hash slices true true.
+Definition run_v0 hash slices := run_sh hash slices false false.
